@@ -20,6 +20,7 @@ Definition FIX_NULL_FIRST : bool := true.   (* add_values NULL scan starts at 0 
 Definition FIX_MERGE_PORTS : bool := true.  (* objs[j] = NULL inside if (is_nvswitch(objs[j])) *)
 Definition FIX_BY_NAME_KIND : bool := true. (* get_by_name passes kind 0 instead of KIND_ALL *)
 Definition FIX_XML_KIND_ZERO : bool := true. (* XML import no longer treats kind="0" as a missing attribute *)
+Definition FIX_GROUPS_FIRSTFOUND : bool := false. (* newfirstfound = smallest newly grouped index, not the first one found *)
 
 Definition TYPE_NONE : N := HWLOC_OBJ_TYPE_NONE_U.
 Definition two64 : N := 18446744073709551616.
@@ -559,65 +560,68 @@ Definition min_distance (nb : nat) (v : list N) : N :=
     (seq 0 nb) UINT64_MAX.
 
 (* for(k=0;k<nbobjs;k++) if (!groupids[k] && VALUE(j,k)==min) { groupids[k]=groupid; size++; if (newfirstfound==-1) newfirstfound=k; } *)
-Fixpoint scan_k (ks : list nat) (nb j : nat) (v : list N) (minv : N) (gid : nat)
+Fixpoint scan_k (fixg : bool) (ks : list nat) (nb j : nat) (v : list N) (minv : N) (gid : nat)
          (st : list nat * nat * option nat) : list nat * nat * option nat :=
   match ks with
   | [] => st
   | k :: r =>
     let '(gids, size, nff) := st in
     if (nth k gids O =? 0)%nat && (vget v (j * nb + k) =? minv)
-    then scan_k r nb j v minv gid (upd gids k gid, S size, match nff with None => Some k | s => s end)
-    else scan_k r nb j v minv gid st
+    then scan_k fixg r nb j v minv gid
+           (upd gids k gid, S size,
+            match nff with None => Some k | Some f => if fixg && (k <? f)%nat then Some k else Some f end)
+    else scan_k fixg r nb j v minv gid st
   end.
 
 (* for(j=firstfound; j<nbobjs; j++) if (groupids[j] == groupid) <scan_k> *)
-Fixpoint scan_j (js : list nat) (nb : nat) (v : list N) (minv : N) (gid : nat)
+Fixpoint scan_j (fixg : bool) (js : list nat) (nb : nat) (v : list N) (minv : N) (gid : nat)
          (st : list nat * nat * option nat) : list nat * nat * option nat :=
   match js with
   | [] => st
   | j :: r =>
     let '(gids, _, _) := st in
-    if (nth j gids O =? gid)%nat then scan_j r nb v minv gid (scan_k (seq 0 nb) nb j v minv gid st)
-    else scan_j r nb v minv gid st
+    if (nth j gids O =? gid)%nat then scan_j fixg r nb v minv gid (scan_k fixg (seq 0 nb) nb j v minv gid st)
+    else scan_j fixg r nb v minv gid st
   end.
 
 (* while (firstfound != -1); each round but the last marks a new object, so nb+1 rounds suffice *)
-Fixpoint grow (fuel : nat) (nb : nat) (v : list N) (minv : N) (gid : nat) (firstfound : nat)
+Fixpoint grow (fixg : bool) (fuel : nat) (nb : nat) (v : list N) (minv : N) (gid : nat) (firstfound : nat)
          (gids : list nat) (size : nat) : option (list nat * nat) :=
   match fuel with
   | O => None
   | S f =>
-    let '(gids', size', nff) := scan_j (seq firstfound (nb - firstfound)) nb v minv gid (gids, size, None) in
+    let '(gids', size', nff) := scan_j fixg (seq firstfound (nb - firstfound)) nb v minv gid (gids, size, None) in
     match nff with
     | None => Some (gids', size')
-    | Some k => grow f nb v minv gid k gids' size'
+    | Some k => grow fixg f nb v minv gid k gids' size'
     end
   end.
 
-Fixpoint groups_i (is : list nat) (nb : nat) (v : list N) (minv : N)
+Fixpoint groups_i (fixg : bool) (is : list nat) (nb : nat) (v : list N) (minv : N)
          (st : list nat * nat * nat) : option (list nat * nat * nat) :=
   match is with
   | [] => Some st
   | i :: r =>
     let '(gids, gid, skipped) := st in
-    if negb (nth i gids O =? 0)%nat then groups_i r nb v minv st
+    if negb (nth i gids O =? 0)%nat then groups_i fixg r nb v minv st
     else
-      match grow (S nb) nb v minv gid i (upd gids i gid) 1 with
+      match grow fixg (S nb) nb v minv gid i (upd gids i gid) 1 with
       | None => None
       | Some (gids', size) =>
-        if (size =? 1)%nat then groups_i r nb v minv (upd gids' i O, gid, S skipped)
-        else groups_i r nb v minv (gids', S gid, skipped)
+        if (size =? 1)%nat then groups_i fixg r nb v minv (upd gids' i O, gid, S skipped)
+        else groups_i fixg r nb v minv (gids', S gid, skipped)
       end
   end.
 
 (* returns (number of groups, groupids) *)
-Definition find_groups_by_min_distance (nb : nat) (v : list N) : option (nat * list nat) :=
+Definition find_groups_gen (fixg : bool) (nb : nat) (v : list N) : option (nat * list nat) :=
   let gids0 := repeat O nb in
   let minv := min_distance nb v in
   if minv =? UINT64_MAX then Some (O, gids0)
   else
-    match groups_i (seq 0 nb) nb v minv (gids0, 1%nat, O) with
+    match groups_i fixg (seq 0 nb) nb v minv (gids0, 1%nat, O) with
     | None => None
     | Some (gids, gid, skipped) =>
       if (gid =? 2)%nat && (skipped =? 0)%nat then Some (O, gids) else Some ((gid - 1)%nat, gids)
     end.
+Definition find_groups_by_min_distance := find_groups_gen FIX_GROUPS_FIRSTFOUND.
